@@ -36,8 +36,11 @@ class Finding(Exception):
     """the abstract semantics positively contradicts a structural requirement"""
 
 
-class _Defer(Exception):
-    pass
+class _Defer(Top):
+    """a tensor reaches a place where only a scalar can be handled"""
+
+    def __init__(self, *a):
+        super().__init__(*(a or ("a tensor is used where the analyser handles scalars only",)))
 
 
 def _key(x):
@@ -1390,6 +1393,18 @@ def jnp_broadcast_to(a, shape):
     return AT(tuple(axes), data)
 
 
+def jnp_broadcast_arrays(*arrays):
+    """every array broadcast to the common shape (numpy semantics, named axes must line up)"""
+    ats = [to_at(a) for a in arrays]
+    if not ats:
+        return []
+    axes = ats[0].axes
+    for b in ats[1:]:
+        axes, _, _ = broadcast(AT(axes, np.broadcast_to(np.array(Poly(), dtype=object), tuple(x for x in axes if isinstance(x, int))).copy()), b)
+    shape = tuple(SymDim(x) if isinstance(x, str) else x for x in axes)
+    return [jnp_broadcast_to(a, shape) for a in ats]
+
+
 def jnp_atleast_2d(a):
     a = to_at(a)
     if len(a.axes) == 0:
@@ -1525,6 +1540,11 @@ def jnp_reshape(a, shape):
 
 
 AXIS_EXTENT = {}      # name of a count axis -> the polynomial it was named after
+
+
+def axis_extent(name):
+    """extent of a named axis as a polynomial"""
+    return AXIS_EXTENT.get(name, Poly.atom(('K', name)))
 
 
 def _as_count(r):
